@@ -236,11 +236,58 @@ def run(prog, chk):
     current_shell_stage_rule(prog, chk)
 
 
-def current_shell_stage_rule(prog, chk):
-    """R12.5: in spawn_pipeline_processes a stage gets ShellForCommand::ParentShell (runs in the current shell,
-    un-isolated) only on the `pipeline_len == 1` edge or the `run_last_pipeline_cmd_in_current_shell` (lastpipe) edge"""
+def _sanctioned_edges(b, len_locals=()):
+    """true-edges of `<len> == 1` and of the lastpipe option test in body b. <len> is a value obtained from a ::len() call or one
+    of the locals in len_locals (parameters whose call-site argument is a length)."""
     from rulelib import bool_edges, switches_on_field
     from dataflow import const_value
+    c = cfg_of(b)
+    d = defs_of(b)
+    removed = set()
+    for bl in b.blocks:
+        t = bl.term
+        if t.kind != "switch" or t.ty != "bool" or bl.idx not in c.reach:
+            continue
+        for o in origins(b, d, t.discr, transparent=set()):
+            if o.kind == 'op' and o.node.kind == 'bin' and o.node.op == "Eq" and const_value(b, d, o.node.ops[1]) == 1:
+                src = origins(b, d, o.node.ops[0], transparent=set())
+                if any(x.kind == 'call' and (x.node.best_callee() or x.node.callee or "").endswith("::len") for x in src) or \
+                        any(x.kind == 'arg' and x.node in len_locals for x in src):
+                    f, tr = bool_edges(t)
+                    removed.add((bl.idx, tr))
+    for gb, gt in switches_on_field(b, "run_last_pipeline_cmd_in_current_shell"):
+        f, tr = bool_edges(gt)
+        removed.add((gb, tr))
+    return removed
+
+
+def _reach_without(b, removed, targets):
+    c = cfg_of(b)
+    seen = {0}
+    stack = [0]
+    prev = {}
+    while stack:
+        x = stack.pop()
+        for sx in c.succ[x]:
+            if (x, sx) in removed or sx in seen:
+                continue
+            seen.add(sx)
+            prev[sx] = x
+            stack.append(sx)
+    bad = [p for p in targets if p in seen]
+    if not bad:
+        return None
+    path = [bad[0]]
+    while path[-1] in prev and len(path) < 40:
+        path.append(prev[path[-1]])
+    return list(reversed(path))
+
+
+def current_shell_stage_rule(prog, chk):
+    """R12.5: in spawn_pipeline_processes a stage gets ShellForCommand::ParentShell (runs in the current shell, un-isolated) only on the
+    `pipeline_len == 1` edge or the `run_last_pipeline_cmd_in_current_shell` (lastpipe) edge. The decision may be materialised in a bool
+    local and/or computed by a helper function returning bool; the rule follows both."""
+    from rulelib import bool_edges
     chk.rule("R12.5", "a pipeline stage runs in the current shell (ParentShell) only for single-command pipelines or under the lastpipe "
                       "option: with those two true-edges removed, the ParentShell construction is unreachable")
     fn = "brush_core::interp::spawn_pipeline_processes"
@@ -256,28 +303,10 @@ def current_shell_stage_rule(prog, chk):
     if not parents or not owned:
         chk.fail("R12.5", fn, "anchors", "ParentShell / OwnedShell constructions not found (%d, %d)" % (len(parents), len(owned)))
         return
-    removed = set()   # edges (from, to)
-    # (1) pipeline_len == 1
-    for bl in b.blocks:
-        t = bl.term
-        if t.kind != "switch" or t.ty != "bool" or bl.idx not in c.reach:
-            continue
-        for o in origins(b, d, t.discr, transparent=set()):
-            if o.kind == 'op' and o.node.kind == 'bin' and o.node.op == "Eq" and const_value(b, d, o.node.ops[1]) == 1:
-                src = origins(b, d, o.node.ops[0], transparent=set())
-                if any(x.kind == 'call' and (x.node.best_callee() or x.node.callee or "").endswith("::len") for x in src):
-                    f, tr = bool_edges(t)
-                    removed.add((bl.idx, tr))
-    # (2) lastpipe option
-    for gb, gt in switches_on_field(b, "run_last_pipeline_cmd_in_current_shell"):
-        f, tr = bool_edges(gt)
-        removed.add((gb, tr))
-    if len(removed) < 2:
-        chk.fail("R12.5", fn, "guards-missing", "the `pipeline_len == 1` / lastpipe tests were not found (%d)" % len(removed))
-        return
-    # the decision is usually materialised in a bool local (`let run_in_current_shell = a || (b && c)`), then tested:
-    # in that case the *targets* are the blocks assigning `true` to that local
+    # the decision is usually materialised in a bool local (`let run_in_current_shell = …`), then tested: in that case the *targets*
+    # are the blocks that can make that local true; if it is the result of a helper call, the helper's body is analysed instead
     targets = list(parents)
+    helper_calls = []
     for bl in b.blocks:
         t = bl.term
         if t.kind == "switch" and t.ty == "bool" and t.discr.place is not None and t.discr.place.is_local() and bl.idx in c.reach:
@@ -288,18 +317,15 @@ def current_shell_stage_rule(prog, chk):
             p_false = any(p == f or p in c.reachable_from(f, avoid=[bl.idx]) for p in parents)
             o_false = all(o == f or o in c.reachable_from(f, avoid=[bl.idx]) for o in owned)
             if p_true and not p_false and o_false:
-                loc = t.discr.place.local
-                # follow copies back to the named local
                 tb = []
                 seen_l = set()
-                work = [loc]
+                work = [t.discr.place.local]
                 while work:
                     l = work.pop()
                     if l in seen_l:
                         continue
                     seen_l.add(l)
                     for kind, dbb, idx, node in d.of(l):
-                        # every definition that can make the flag true: `= true`, a computed value, a call result
                         if kind == 'assign' and node.rv.kind == 'use':
                             o = node.rv.ops[0]
                             if o.const is not None:
@@ -309,34 +335,59 @@ def current_shell_stage_rule(prog, chk):
                                 work.append(o.place.local)
                             else:
                                 tb.append(dbb)
+                        elif kind == 'call':
+                            hb = prog.body(node.best_callee() or "")
+                            if hb is not None and hb.crate in SHIPPED and hb.ret == "bool":
+                                helper_calls.append((dbb, node, hb))
+                            else:
+                                tb.append(dbb)
                         else:
                             tb.append(dbb)
-                if tb:
+                if tb or helper_calls:
                     targets = tb
-    parents = targets
-    # reachability of the targets without the sanctioned edges
-    seen = {0}
-    stack = [0]
-    prev = {}
-    while stack:
-        x = stack.pop()
-        for sx in c.succ[x]:
-            if (x, sx) in removed or sx in seen:
+    nguards = 0
+    problems = []
+    if targets:
+        removed = _sanctioned_edges(b)
+        nguards += len(removed)
+        if len(removed) < 2 and not helper_calls:
+            chk.fail("R12.5", fn, "guards-missing", "the `pipeline_len == 1` / lastpipe tests were not found (%d)" % len(removed))
+            return
+        p = _reach_without(b, removed, targets)
+        if p is not None:
+            problems.append((b, p))
+    for dbb, call, hb in helper_calls:
+        # parameters of the helper that receive a length at this call site
+        len_locals = set()
+        for i, a in enumerate(call.args):
+            if any(x.kind == 'call' and (x.node.best_callee() or x.node.callee or "").endswith("::len") for x in origins(b, d, a, transparent=set())):
+                len_locals.add(i + 1)
+        removed = _sanctioned_edges(hb, len_locals)
+        nguards += len(removed)
+        if len(removed) < 2:
+            chk.fail("R12.5", fn, "current-shell-stage-without-lastpipe",
+                     "the current-shell decision for a pipeline stage can be made true by %s, which tests neither `pipeline_len == 1` nor the lastpipe option: "
+                     "a stage runs un-isolated in the enclosing shell" % hb.name)
+            return
+        hd = defs_of(hb)
+        hc = cfg_of(hb)
+        tt = []
+        for kind, dbb2, idx, node in hd.of(0):
+            if kind == 'assign' and node.rv.kind == 'use' and node.rv.ops[0].const is not None and node.rv.ops[0].const.value == 0:
                 continue
-            seen.add(sx)
-            prev[sx] = x
-            stack.append(sx)
-    bad = [p for p in parents if p in seen]
-    if bad:
-        path = [bad[0]]
-        while path[-1] in prev and len(path) < 40:
-            path.append(prev[path[-1]])
-        lines = sorted({b.blocks[x].term.line for x in path if b.blocks[x].term.kind == "switch"})
+            tt.append(dbb2)
+        p = _reach_without(hb, removed, [x for x in tt if x in hc.reach])
+        if p is not None:
+            problems.append((hb, p))
+    if problems:
+        pb, path = problems[0]
+        lines = sorted({pb.blocks[x].term.line for x in path if pb.blocks[x].term.kind == "switch"})
         chk.fail("R12.5", fn, "current-shell-stage-without-lastpipe",
-                 "a pipeline stage can be given the *current* shell (ParentShell) without `pipeline_len == 1` or the lastpipe option (branches at lines %s): "
-                 "its assignments, cd, options and descriptors leak into the enclosing shell" % lines, detail={"path_blocks": list(reversed(path))})
+                 "a pipeline stage can be given the *current* shell (ParentShell) without `pipeline_len == 1` or the lastpipe option (decided in %s, branches at lines %s): "
+                 "its assignments, cd, options and descriptors leak into the enclosing shell" % (owner(pb.name), lines), detail={"path_blocks": path})
     else:
-        chk.ok("R12.5", "current-shell-only-single-or-lastpipe", "ParentShell is unreachable once the two sanctioned true-edges are removed (%d guards)" % len(removed), function=fn)
+        chk.ok("R12.5", "current-shell-only-single-or-lastpipe", "ParentShell is unreachable once the two sanctioned true-edges are removed (%d guard edges%s)"
+               % (nguards, "; decided by helper " + ", ".join(sorted({owner(h.name) for _, _, h in helper_calls})) if helper_calls else ""), function=fn)
 
 
 def _behind_not_subshell(b, bb):
